@@ -89,7 +89,7 @@ def decodeSubsetLoop (T : Tables) (edition : Nat) (s4max : Nat) :
                 | .ok (lst, eflag) =>
                   let st4 := { st3 with invalid := st3.invalid || eflag }
                   let whole := done.reverse ++ lst
-                  let len := estimateSeqLength T f whole
+                  let len := minSeqLength whole
                   if (st4.s4len + len) / 8 > (s4max : Int) * 3 then
                     .ok (st4, whole, .tooLong)
                   else
